@@ -1537,7 +1537,16 @@ macro_rules! public_decode_function{
                     // Wasn't read from `src`!, leave out_read to 0
                 }
                 DecoderResult::OutputFull => {
-                    panic!("Output buffer must have been too small.");
+                    // Nothing was consumed or written (this can happen
+                    // when the with-replacement wrappers call with the
+                    // remainder of a buffer), so go back to waiting for
+                    // space for the withheld byte.
+                    self.life_cycle = match first_byte {
+                        0xEFu8 => DecoderLifeCycle::SeenUtf8First,
+                        0xFEu8 => DecoderLifeCycle::SeenUtf16BeFirst,
+                        0xFFu8 => DecoderLifeCycle::SeenUtf16LeFirst,
+                        _ => DecoderLifeCycle::ConvertingWithPendingBB,
+                    };
                 }
             }
             return (first_result, out_read, first_written);
@@ -1582,7 +1591,14 @@ macro_rules! public_decode_function{
                     first_read = 0usize; // Wasn't read from `src`!
                 }
                 DecoderResult::OutputFull => {
-                    panic!("Output buffer must have been too small.");
+                    if first_read != 1usize {
+                        panic!("Output buffer must have been too small.");
+                    }
+                    // The output for the first byte fit but there wasn't
+                    // enough space left to decode the second one, which
+                    // isn't in `src`, so it needs to be handled later.
+                    self.life_cycle = DecoderLifeCycle::ConvertingWithPendingBB;
+                    first_read = 0usize; // Wasn't read from `src`!
                 }
             }
             return (first_result, first_read, first_written);
